@@ -55,8 +55,8 @@ def strip_doc(body):
 
 # ------------------------------------------------------------------------------------------- operation classes
 class OpClass:
-    def __init__(self, node, file):
-        self.node, self.name, self.file = node, node.name, file
+    def __init__(self, node, file, module=None):
+        self.node, self.name, self.file, self.module = node, node.name, file, module
         self.bases = []
         for b in node.bases:
             if isinstance(b, ast.Name):
@@ -82,7 +82,7 @@ def load_classes(repo):
             if isinstance(n, ast.ClassDef):
                 if n.name in classes:
                     raise TranslateError(f"class {n.name} defined twice")
-                classes[n.name] = OpClass(n, src)
+                classes[n.name] = OpClass(n, src, tree)
                 order.append(n.name)
 
     def reaches_root(name, seen=()):
@@ -287,7 +287,8 @@ def translate_stim_method(classes, name):
     tr = StimMethod(name, params)
     # guard clauses are read in one direction (pycoq N2 + N3): `if not-A or not-B: return Y` followed by X is the same function as
     # `if A and B: X` followed by `return Y`.  Annotations stay (they type the locals here), nothing else is rewritten.
-    fn = norm_function(fn, annotations=False, accumulate=False, single_use=False, helpers=False)
+    # Calls of a private single-`return` method of the same class (`self._lookback(self.main_target)`) are inlined (N6).
+    fn = norm_function(fn, module=classes[name].module, cls=classes[name].node, annotations=False, accumulate=False, single_use=False)
     body = tr.block(fn.body, {}, 2)
     sig = " ".join(f"self_{p}" for p in params)
     txt = f"Definition {name}_params : list string := [{'; '.join(cstr(p) for p in params)}].\n"
